@@ -1031,3 +1031,86 @@ def rule_refill_moves_block_offset(ctx):
                 ctx.violated("REFILLADV", key, f.where(line), "the bit buffer is refilled (`buf_read = ..`) in a block that never mentions block_offset: the window's recorded start stays that of the previous block, and a later Hbitseek inside that range reads the wrong bytes")
     ctx.floor("REFILLADV", 5, n, "(refills of the bit buffer)")
     return n
+
+
+INITALL_EXCEPT = {
+    ("HCIcrle_init", "buf_length"): "the RLE machine starts in state RLE_INIT (set by the init routine), and both the decoder and the encoder assign buf_length in that state before they read it",
+}
+
+
+def rule_coder_init_complete(ctx, files=("hdf/src/crle.c", "hdf/src/cnbit.c", "hdf/src/cskphuff.c")):
+    """INITALL (C05): a coder is restarted - at the start of access and on every backward seek - by its `.._init` routine, which
+    puts the coder record back into its initial state.  Every scalar field of that record which another routine of the
+    coder *reads* is assigned by the init routine: a field it leaves alone (the RLE "last operation was a write" flag) keeps
+    its value across the restart, and the end-of-access flush then writes decoder left-overs over valid compressed data."""
+    prog = ctx.prog
+    n = 0
+    for rel in files:
+        funcs = [f for f in prog.lib_funcs() if f.rel.endswith(rel)]
+        inits = [f for f in funcs if f.name.endswith("_init")]
+        if not inits:
+            continue
+        init = inits[0]
+        assigned = {}
+        for _b, _i, _s, x in init.nodes(True):
+            if x[0] == "asg":
+                mf = mem_field(x[2])
+                if mf:
+                    assigned.setdefault(mf[0], set()).add(mf[1])
+                t = strip(x[2])
+                while kind(t) == "idx":
+                    t = strip(t[1])
+                mf = mem_field(t)
+                if mf:
+                    assigned.setdefault(mf[0], set()).add(mf[1])
+        recs = [r for r in assigned if "info" in r and ("coder" in r or "comp" in r)]
+        if not recs:
+            continue
+        rec = max(recs, key=lambda r: len(assigned[r]))
+        read = {}
+        for f in funcs:
+            if f is init:
+                continue
+            for _b, _i, s, x in f.nodes(True):
+                if x[0] == "asg" and x[1] == "=":
+                    rhs_nodes = list(walk(x[3], True))
+                else:
+                    rhs_nodes = [x]
+                for y in rhs_nodes:
+                    if y[0] == "mem" and y[3] == rec:
+                        read.setdefault(y[2], (f.name, s.get("l", f.line)))
+        # array members are re-filled before use, not initialised
+        arrays = set()
+        for f in funcs:
+            for _b, _i, _s, x in f.nodes(True):
+                if x[0] == "idx" and mem_field(x[1]) and mem_field(x[1])[0] == rec:
+                    arrays.add(mem_field(x[1])[1])
+        # running state only: fields that the coder's other routines also *write* (parameters such as a mask length or a skip
+        # size are set once at creation and only read here)
+        written = set()
+        for f in funcs:
+            if f is init:
+                continue
+            for _b, _i, _s, x in f.nodes(True):
+                if x[0] == "asg":
+                    mf = mem_field(x[2])
+                    if mf and mf[0] == rec:
+                        written.add(mf[1])
+                elif x[0] == "incdec":
+                    mf = mem_field(x[3])
+                    if mf and mf[0] == rec:
+                        written.add(mf[1])
+        for fld, (fn, line) in sorted(read.items()):
+            if fld in arrays or fld not in written:
+                continue
+            n += 1
+            key = "INITALL:%s:%s" % (init.name, fld)
+            if (init.name, fld) in INITALL_EXCEPT:
+                ctx.excepted("INITALL", key, init.where(), INITALL_EXCEPT[(init.name, fld)])
+                continue
+            if fld in assigned[rec]:
+                ctx.holds("INITALL", key, init.where(), "`%s` is reset by %s" % (fld, init.name), nontrivial=True)
+            else:
+                ctx.violated("INITALL", key, init.where(), "`%s` is read by %s (line %d) but %s, which restarts the coder, never assigns it: the field survives a restart with the value of the previous pass" % (fld, fn, line, init.name))
+    ctx.floor("INITALL", 6, n, "(coder record fields read outside the init routine)")
+    return n
